@@ -4,6 +4,7 @@ import BV.Drive.Concat
 import BV.Drive.Pool
 import BV.Drive.Huffman
 import BV.Drive.Adapters
+import BV.Drive.FFI
 import BV.Drive.Header
 import BV.Drive.Multi
 import BV.Drive.Hasher
@@ -27,6 +28,7 @@ def dispatch (line : String) : String :=
   | "dict" :: rest => BV.Drive.Dict.handle rest
   | "ledger" :: rest => BV.Drive.Ledger.handle rest
   | "stream" :: rest => BV.Drive.Stream.handle rest
+  | "ffi" :: rest => BV.Drive.FFI.handle rest
   | _ => "bad-engine"
 
 partial def loop (h : IO.FS.Stream) (out : IO.FS.Stream) : IO Unit := do
